@@ -15,10 +15,11 @@ def isPlainDict : Val → Bool
   | _ => false
 
 /-- `n0dict._find(elem, toks, elem, rl, found)` called from `n0list._find`: `self` is the element -/
-def dispatchD (fuel : Nat) (root : Val) (elem : PRef) (ev : Val) (toks : List Str) (rl : Bool) (found : Str) :
+def dispatchD (fuel : Nat) (root : Val) (elem : PRef) (_ev : Val) (toks : List Str) (rl : Bool) (found : Str) :
     PyM (Val × Res) :=
+  -- `n0dict._find` recurses through the class, so a plain dict element works as `self`
   match refPos elem with
-  | some p => findD fuel root p (isPlainDict ev) true toks elem rl found
+  | some p => findD fuel root p false true toks elem rl found
   | Option.none => .error .Unsupported
 
 /-- `n0list._find` -/
@@ -302,7 +303,7 @@ def getCore (fuel : Nat) (root : Val) (xp : Str) (dflt : Val) (raise : Bool) (rl
     let (xp, raise, dflt) := if startsWith xp ['?'] then (xp.drop 1, false, emptyStr) else (xp, raise, dflt)
     if hasPathChar xp then
       match findL fuel root [] (tokenize xp) (.at []) rl slash with
-      | .error e => (root, .error e)
+      | .error e => if caught e then (if raise then (root, .error e) else (root, .ok dflt)) else (root, .error e)
       | .ok (root', r) =>
         if r.isFound then (root', .ok r.value)
         else if raise then (root', .error .IndexError) else (root', .ok dflt)
@@ -313,7 +314,7 @@ def getCore (fuel : Nat) (root : Val) (xp : Str) (dflt : Val) (raise : Bool) (rl
         match normIdx i xs.length with
         | some n => (root, .ok (xs.getD n Val.none))
         | Option.none => if raise then (root, .error .IndexError) else (root, .ok dflt)
-      | .ok (.str _) => (root, .error .TypeError)
+      | .ok (.str _) => if raise then (root, .error .TypeError) else (root, .ok dflt)
   | _ => (root, .error .Unsupported)
 
 def getItem (fuel : Nat) (root : Val) (xp : Str) : Val × PyM Val :=
